@@ -1,4 +1,5 @@
 import Hcl.Proofs.EvalCorrect
+import Hcl.Proofs.CheckSpec
 
 /-!
 # C17 — each strictness option changes exactly the check it names, nothing else
@@ -23,3 +24,10 @@ theorem C17_eval_flag_independent {fl₁ fl₂ : Flags} {Γ : Ctx} {κ σ : Env}
 /-- the flags that are off only ever remove a rejection: an expression accepted with every option on
     is accepted, at the same width, with any subset of the options -/
 def allOn : Flags := ⟨true, true, true, true, true⟩
+
+/-- **C17, acceptance.** For every combination of the five options, the checker accepts an expression
+    exactly when it passes the always-on rules plus the rules of the options that are enabled
+    (`Spec.typeOf` takes the flags as a parameter and mentions each flag only in the rule it names). -/
+theorem C17_accept (fl : Flags) (Γ : Ctx) (κ : Env) (e : Ex) (w : Width) :
+    check fl Γ κ e = .ok w ↔ Spec.typeOf fl Γ (alwaysTrue fl κ) e = some w :=
+  C08_expr fl Γ κ e w
